@@ -1773,7 +1773,7 @@ namespace variant_detail
         typename std::enable_if<std::is_same<PeriodT,std::nano>::value, result_type>::type
         from_json_(const allocator_set<Alloc,TempAlloc>& aset, const Json& j)
         {
-            if (j.is_int64() || j.is_uint64() || j.is_double())
+            if (j.is_int64() || j.is_uint64())
             {
                 auto count = j.template as<Rep>();
                 switch (j.tag())
